@@ -5,7 +5,7 @@ CONSTANTS
   Fds = {1, 2, 3}
   MaxConn = 3
   Rogue = {2, 3, 4}
-  Programs = {1, 2, 3, 4, 5, 6, 7, 8, 9}
+  Programs = {1, 2, 3, 4, 5, 6, 7, 8, 9, 10}
   SndCap = 100000
   EventsCap = 5
   LimitN = 20
